@@ -427,8 +427,8 @@ func (p *lifePeer) run1() (why string) {
 		case "noSelect": // never selects: the library's T7 must fire
 			p.stall()
 			return "exit#1"
-		case "stallMidFrame": // 2 bytes of a length prefix, then silence: T8
-			_, _ = p.conn.Write([]byte{0, 0})
+		case "stallMidFrame": // the first Cut.Off bytes of a frame (default 2), then silence with the socket open: T8
+			_, _ = p.conn.Write(lifeStallPrefix(p.beh.Cut.Off, 2))
 			p.stall()
 			return "exit#2"
 		}
@@ -472,7 +472,7 @@ func (p *lifePeer) run1() (why string) {
 				p.stall()
 				return "exit#8"
 			case "stallMidFrame":
-				_, _ = p.conn.Write([]byte{0, 0, 0})
+				_, _ = p.conn.Write(lifeStallPrefix(p.beh.Cut.Off, 3))
 				p.stall()
 				return "exit#9"
 			case "rejectSelect":
@@ -564,4 +564,17 @@ func lifeWaitNoLibGoroutines(d time.Duration) []string {
 		}
 		time.Sleep(5 * time.Millisecond)
 	}
+}
+
+// lifeStallPrefix returns the first n bytes (def when n == 0) of a well-formed Linktest.req frame: what a
+// peer has written when it stalls n bytes into a frame. n == 4 is the whole length prefix and nothing else.
+func lifeStallPrefix(n, def int) []byte {
+	if n <= 0 {
+		n = def
+	}
+	f := lifeFrame{Session: 0xFFFF, SType: 5, Sys: [4]byte{0, 0, 0x7f, 1}}.bytes()
+	if n > len(f)-1 {
+		n = len(f) - 1
+	}
+	return f[:n]
 }
